@@ -2,7 +2,7 @@
 From Coq Require Import List NArith ZArith Bool.
 Import ListNotations.
 From SAV.base Require Import Tree.
-From SAV.orm Require Import Flush.
+From SAV.orm Require Import Flush FlushSync.
 Local Open Scope N_scope.
 
 Definition as_rel (t : tree) : option rel :=
@@ -53,9 +53,32 @@ Fixpoint run (rs : list rel) (s : state) (h : list op) : list tree * state :=
 Definition of_gobj (e : N * N * Z * list (N * N)) : tree :=
   match e with (i, c, v, fk) => L [of_N i; of_N c; I v; of_list of_fk (sort_by fst fk)] end.
 
+(* ---- composite natural keys (FlushSync.v): input L [I 7; I n; ops] *)
+Definition as_nop (t : tree) : option nop :=
+  match t with
+  | L [I 0; i; k] => match as_N i, as_list_of as_Z k with Some i, Some k => Some (NewP i k) | _, _ => None end
+  | L [I 1; i] => match as_N i with Some i => Some (NewC i) | None => None end
+  | L [I 2; c; p] => match as_N c, as_optN p with Some c, Some p => Some (SetPar c p) | _, _ => None end
+  | L [I 3; p; j; v] => match as_N p, as_nat j, as_Z v with Some p, Some j, Some v => Some (SetKey p j v) | _, _, _ => None end
+  | L [I 6] => Some NFlush
+  | _ => None end.
+Definition nsnapshot (s : nstate) : tree :=
+  L [of_list (fun e : N * list Z => L (of_N (fst e) :: map I (snd e))) (sort_by fst (prow s));
+     of_list (fun e : N * option (list Z) => L [of_N (fst e); match snd e with Some k => L (map I k) | None => L [] end])
+             (sort_by fst (crow s))].
+Fixpoint nrun (n : nat) (s : nstate) (h : list nop) : list tree :=
+  match h with
+  | [] => []
+  | o :: r => let s' := napply1 n s o in match o with NFlush => nsnapshot s' :: nrun n s' r | _ => nrun n s' r end
+  end.
+
 (* input L [rels; ops] (rel = [id; kind; a; b; has collection side; flags for the harness only]); output L [snapshots; loaded graph; (id, state) of every object] *)
 Definition run_case (t : tree) : tree :=
   match t with
+  | L [I 7; tn; tops] =>
+    match as_nat tn, as_list_of as_nop tops with
+    | Some n, Some h => L (nrun n nempty h)
+    | _, _ => bad_input end
   | L [trs; tops] =>
     match as_list_of as_rel trs, as_list_of as_op tops with
     | Some rs, Some h =>
